@@ -637,3 +637,4 @@ CHECKS["C17"]["required_classes"]["all"] += ["same-password-next-request-other-u
 CHECKS["C18"]["required_classes"]["all"] = CHECKS["C18"].get("required_classes", {}).get("all", []) + ["document-over-64KiB"]
 CHECKS["C18"]["required_classes"]["all"] += ["reload:hook-environment-checked", "reload:check-fails-other"]
 CHECKS["C20"]["required_classes"]["all"] += ["unreachable-socket-path-of-107..109-bytes"]
+CHECKS["C04"]["required_classes"]["all"] += ["agent-started:socket-activated(runsa)"]
